@@ -1,5 +1,6 @@
 import FM.Lemmas.RenderNl
 import FM.Lemmas.Quotes
+import FM.Lemmas.Placeholder
 /-
   C12 — Formatting always terminates with well-formed output.
 
@@ -81,5 +82,81 @@ theorem CODE_BLANK (s : Str) : ∀ c, (rstrip s).getLast? = some c → isPySpace
   unfold rstrip at h
   rw [List.getLast?_reverse] at h
   exact dropWhile_head_not isPySpace _ c h
+
+/-! ### placeholders (model `FM/Model/Placeholder.lean`, tied by op `placeholder`) -/
+
+/-- RESTORE_EXTRACT: whatever the regular expression marked as constructs, and whatever the constructs contain, putting the
+placeholders in and restoring them by one left-to-right pass gives back the text — provided the text OUTSIDE the constructs
+holds no NUL (`all` is the whole construct map; the pieces are a tail of the text whose constructs are numbered from `k`). -/
+theorem RESTORE_EXTRACT (all : List Str) : ∀ (ps : List Piece) (k f : Nat),
+    (∀ s, Piece.text s ∈ ps → nul ∉ s) → atomsOf ps = all.drop k → (extractText ps k).length ≤ f →
+    restorePH all f (extractText ps k) = flattenPieces ps
+  | [], k, f, _, _, _ => by cases f <;> simp [extractText, flattenPieces, restorePH]
+  | .text s :: r, k, f, hn, ha, hl => by
+    have hs : nul ∉ s := hn s List.mem_cons_self
+    simp only [extractText, List.length_append] at hl
+    have h1 := restorePH_text all s (extractText r k) f hs (by omega)
+    simp only [Nat.add_zero] at h1
+    simp only [extractText, flattenPieces]
+    rw [h1, RESTORE_EXTRACT all r k (f - s.length) (fun x hx => hn x (List.mem_cons_of_mem _ hx)) ha (by omega)]
+  | .atom a :: r, k, f, hn, ha, hl => by
+    simp only [atomsOf] at ha
+    have hk : all[k]? = some a := by
+      have := congrArg List.head? ha
+      simpa [List.head?_drop] using this.symm
+    have hr : atomsOf r = all.drop (k + 1) := by
+      have := congrArg List.tail ha
+      simpa [List.tail_drop] using this
+    simp only [extractText, List.length_append] at hl
+    have hp := placeholder_length_pos k
+    obtain ⟨f', rfl⟩ : ∃ f', f = f' + 1 := ⟨f - 1, by omega⟩
+    have hsh : placeholder k ++ extractText r (k + 1)
+        = nul :: ('A' :: 'C' :: (Nat.toDigits 10 k ++ [nul]) ++ extractText r (k + 1)) := by simp [placeholder]
+    simp only [extractText, flattenPieces]
+    rw [hsh]
+    simp only [restorePH]
+    rw [← hsh, matchPH_placeholder]
+    simp only [hk]
+    rw [RESTORE_EXTRACT all r (k + 1) f' (fun x hx => hn x (List.mem_cons_of_mem _ hx)) hr (by omega)]
+
+/-- ROUND_TRIP: `restore(extract(text)) = text` for every segmentation of a text whose plain pieces hold no NUL. -/
+theorem ROUND_TRIP (ps : List Piece) (hn : ∀ s, Piece.text s ∈ ps → nul ∉ s) :
+    roundTrip ps = flattenPieces ps := by
+  unfold roundTrip
+  exact RESTORE_EXTRACT (atomsOf ps) ps 0 _ hn (by simp) (by omega)
+
+theorem mem_flattenPieces : ∀ (ps : List Piece) (c : Char), c ∈ flattenPieces ps →
+    (∃ s, Piece.text s ∈ ps ∧ c ∈ s) ∨ (∃ a, Piece.atom a ∈ ps ∧ c ∈ a)
+  | [], c, h => by simp [flattenPieces] at h
+  | .text s :: r, c, h => by
+    simp only [flattenPieces, List.mem_append] at h
+    rcases h with h | h
+    · exact Or.inl ⟨s, List.mem_cons_self, h⟩
+    · rcases mem_flattenPieces r c h with ⟨x, hx, hc⟩ | ⟨x, hx, hc⟩
+      · exact Or.inl ⟨x, List.mem_cons_of_mem _ hx, hc⟩
+      · exact Or.inr ⟨x, List.mem_cons_of_mem _ hx, hc⟩
+  | .atom a :: r, c, h => by
+    simp only [flattenPieces, List.mem_append] at h
+    rcases h with h | h
+    · exact Or.inr ⟨a, List.mem_cons_self, h⟩
+    · rcases mem_flattenPieces r c h with ⟨x, hx, hc⟩ | ⟨x, hx, hc⟩
+      · exact Or.inl ⟨x, List.mem_cons_of_mem _ hx, hc⟩
+      · exact Or.inr ⟨x, List.mem_cons_of_mem _ hx, hc⟩
+
+/-- NO_PLACEHOLDER_LEAK ("contains no internal placeholder or control bytes that were not in the input"): for a text
+without NUL, what the splitter hands back after restoring holds no NUL either — every placeholder was put back. -/
+theorem NO_PLACEHOLDER_LEAK (ps : List Piece) (hn : nul ∉ flattenPieces ps)
+    (ht : ∀ s, Piece.text s ∈ ps → nul ∉ s) : nul ∉ roundTrip ps := by
+  rw [ROUND_TRIP ps ht]; exact hn
+
+/-- the repaired regression: `` `a` `b`AC0`c` `` — restoring index by index matched "\0AC0\0" across the placeholders of
+`` `b` `` and `` `c` `` and left NUL bytes in the output; one left-to-right pass gives the text back. -/
+example : roundTrip [.atom "`a`".toList, .text " ".toList, .atom "`b`".toList, .text "AC0".toList, .atom "`c`".toList]
+    = "`a` `b`AC0`c`".toList := by decide
+
+/-- ROUND_TRIP's hypothesis is necessary: a NUL outside the constructs can forge a placeholder (P-nul). -/
+theorem ROUND_TRIP_false : ∃ ps, roundTrip ps ≠ flattenPieces ps :=
+  ⟨[.atom "`a`".toList, .text [nul, 'A', 'C', '0', nul]], by decide⟩
+
 
 end FM.C12
